@@ -44,6 +44,17 @@ degree / is_linear, LP solves (optimum over the box = sum of the negative coeffi
 solution.values keys, as constraint against SciPy's linprog on the hand-computed row) and NLP solves of the separable quadratic
 Σ v·v − 2c@v (minimiser sⱼ/mⱼ by hand).
 
+Heterogeneous-elements dimension (family `hetero`): the vectorised build of a GENERAL term list — `VectorExpression([t_1..t_n])`
+built by hand, reduced by .sum() / c @ · / ·.dot(·) / ‖·‖₂ / ‖·‖₁ — whose elements differ in operator (x0 + c0, x1 − c1, x2 · c2,
+x3 / c3), operand position (c − x, c / x) and shape (variable, constant, unary function, power, nested, x ∘ y, x ∘ parameter, typed
+constants), along element-list profiles (one odd element first / last / somewhere, two runs, equal ends, cycling / random operators,
+equal constants, mixed shapes, unary / power mixes; distinct or few shared variables).  The formula is kept as a recipe and written
+once over optyx objects and once over the harness's own forward-mode numbers (plain float / NumPy): vector node vs left-deep vs
+balanced (vs the flattened list as ONE chain / ONE VectorExpression) — standalone, wrapped, and as node(s) inside deep (≥ 400)
+chains (top, bottom, middle, right of a subtraction, several blocks); thresholds default / 0 / 3; evaluate, compile_expression,
+compile_to_dict_function, CompiledExpression, gradient(), compile_gradient, compile_jacobian, get_all_variables, and solve objectives
+over a box with the optimum computed by hand.
+
 Tie to the Lean model (n ≤ 900): variables at both thresholds, gradient with the switch at both
 thresholds (structural), the three depth estimates, compiled IR + which builder ran.
 """
@@ -724,6 +735,20 @@ def run(ctx) -> core.Report:
         else:
             rep.nontrivial.add(("deep-wrapped", w, op, n))
     rep.histogram["wall_deep_wrapped_s"] = round(time.time() - t_start, 1)
+    # ---- heterogeneous element lists under a vectorised build: vector node vs accumulations vs the harness's own arithmetic
+    HET_STATS.clear()
+    for prof, red, where, n, m, thr, fseed, solve in hetero_plan(rng, thorough):
+        r = hetero_case(prof, red, where, n, m, thr, fseed, solve)
+        rep.histogram["hetero"] = rep.histogram.get("hetero", 0) + 1
+        rep.histogram[f"hetero:{where}"] = rep.histogram.get(f"hetero:{where}", 0) + 1
+        rep.histogram[f"hetero:red:{red}"] = rep.histogram.get(f"hetero:red:{red}", 0) + 1
+        if r is not None:
+            fails.append(r)
+        else:
+            rep.nontrivial.add(("hetero", prof, red, where, n, m, thr, solve))
+    for k2, v in HET_STATS.items():
+        rep.histogram["hetero:" + k2] = v
+    rep.histogram["wall_hetero_s"] = round(time.time() - t_start, 1)
     # ---- deep linear accumulations through every walker of the LP route
     for kind, shape, wrapper, n, nvars, fseed, methods in lp_route_plan(rng, thorough):
         r = lp_route_case(kind, shape, wrapper, n, nvars, fseed, methods)
@@ -2121,6 +2146,636 @@ def solve_case(n, seed, method="auto"):
     return None
 
 
+# ----------------------------------------------------------------------------- heterogeneous element lists under a vectorised build
+#
+# `VectorExpression([t_1..t_n])` built BY HAND from a general term list and reduced by one vector node (.sum(), c @ ·, ·.dot(·),
+# ‖·‖₂, ‖·‖₁): the elements differ in operator (x0 + c0, x1 - c1, x2 * c2, x3 / c3), in operand position (c - x, c / x) and in
+# shape (bare variable, bare constant, unary function, nested operation, variable ∘ variable, variable ∘ parameter, power, typed
+# constants) — what the vector API itself never produces, because one vector operation gives every element one operator and one
+# shape.  Whatever looks only at the first element / assumes that all elements share an operator, a shape, a constant or a
+# variable is exposed by the element-list PROFILES below (one odd element first / last / somewhere, two runs, equal ends, cycling
+# operators, reflected operands, mixed shapes, equal constants, few shared variables).
+#
+# The formula is kept as a RECIPE (records of plain numbers; checklist 28) and written twice with the same Python operators: once
+# over optyx objects, once over the harness's own forward-mode numbers (HDual: float value + NumPy gradient vector, no optyx code).
+# Builds: the vector node, the left-deep and the balanced accumulation of the same summands (and, for pure sums, the flattened
+# term list as one chain / one balanced tree / ONE big heterogeneous VectorExpression) — standalone, under short wrappers, and as
+# node(s) at the top / bottom / middle / right of a subtraction / several places of a deep (≥ 400) term-by-term chain; thresholds
+# default / 0 / 3.  Channels: evaluate, compile_expression (two points, one callable), compile_to_dict_function,
+# CompiledExpression.value / .gradient, gradient(), compile_gradient, compile_jacobian([e], V), get_all_variables, and a solve with
+# the formula as objective over a box whose optimum is computed by hand (every variable's contribution is monotone: corner).
+
+HET_OPS = ["+", "-", "*", "/"]
+HET_UNARY = ["sin", "cos", "exp", "tanh", "neg", "sqrt", "log", "abs", "sinh", "atan"]
+HET_MONO_UNARY = ["exp", "tanh", "neg", "sqrt", "log"]
+HET_BOUNDED_UNARY = ["sin", "cos", "exp", "tanh", "atan"]
+HET_PROFILES = ["one-op", "cycle-ops", "first-odd", "last-odd", "one-odd", "two-runs", "ends-same", "random-ops", "same-const",
+                "reflected", "first-vc-then-shapes", "first-shape-odd", "shapes", "unary-odd", "unary-random", "pow-odd", "pow-random"]
+HET_REDUCTIONS = ["sum", "lc", "dot", "l2", "l1"]
+HET_WHERE = ["alone", "wrapped", "deep-top", "deep-bottom", "deep-mid", "deep-sub", "deep-many"]
+HET_WRAPS = ["K-S", "S-K", "K+S", "-S", "k*S", "S/k", "k*(K-S)", "K-k*S", "(K-S)-K2"]
+HET_FN = {
+    "sin": (math.sin, math.cos), "cos": (math.cos, lambda t: -math.sin(t)), "exp": (math.exp, math.exp),
+    "tanh": (math.tanh, lambda t: 1.0 - math.tanh(t) ** 2), "neg": (lambda t: -t, lambda t: -1.0),
+    "sqrt": (math.sqrt, lambda t: 0.5 / math.sqrt(t)), "log": (math.log, lambda t: 1.0 / t),
+    "abs": (abs, lambda t: math.copysign(1.0, t)), "sinh": (math.sinh, math.cosh),
+    "atan": (math.atan, lambda t: 1.0 / (1.0 + t * t)),
+}
+HET_STATS: dict = {}
+HET_LO, HET_HI = 0.5, 1.5      # the box of every variable: log, sqrt, c / x, x ** -1 are regular and monotone on it
+
+
+class HDual:
+    """value and gradient vector in plain float / NumPy arithmetic — the harness's own forward mode"""
+
+    __slots__ = ("v", "g")
+
+    def __init__(self, v, g):
+        self.v = float(v)
+        self.g = g
+
+    def _l(self, o):
+        return o if isinstance(o, HDual) else HDual(float(o), np.zeros_like(self.g))
+
+    def __add__(self, o):
+        o = self._l(o)
+        return HDual(self.v + o.v, self.g + o.g)
+
+    def __radd__(self, o):
+        o = self._l(o)
+        return HDual(o.v + self.v, o.g + self.g)
+
+    def __sub__(self, o):
+        o = self._l(o)
+        return HDual(self.v - o.v, self.g - o.g)
+
+    def __rsub__(self, o):
+        o = self._l(o)
+        return HDual(o.v - self.v, o.g - self.g)
+
+    def __mul__(self, o):
+        o = self._l(o)
+        return HDual(self.v * o.v, self.g * o.v + self.v * o.g)
+
+    def __rmul__(self, o):
+        o = self._l(o)
+        return HDual(o.v * self.v, o.g * self.v + o.v * self.g)
+
+    def __truediv__(self, o):
+        o = self._l(o)
+        return HDual(self.v / o.v, (self.g * o.v - self.v * o.g) / (o.v * o.v))
+
+    def __rtruediv__(self, o):
+        o = self._l(o)
+        return HDual(o.v / self.v, (o.g * self.v - o.v * self.g) / (self.v * self.v))
+
+    def __neg__(self):
+        return HDual(-self.v, -self.g)
+
+    def __pow__(self, k):
+        k = float(k)
+        return HDual(self.v ** k, (k * self.v ** (k - 1.0)) * self.g)
+
+
+class HetRef:
+    """the recipe over the harness's own numbers"""
+
+    def __init__(self, point, params):
+        self.p = [float(t) for t in point]
+        self.params = [float(t) for t in params]
+        self.nv = len(self.p)
+
+    def var(self, i):
+        g = np.zeros(self.nv)
+        g[i] = 1.0
+        return HDual(self.p[i], g)
+
+    def const(self, c):
+        return HDual(float(c), np.zeros(self.nv))
+
+    def par(self, j):
+        return self.params[j]
+
+    def un(self, f, a):
+        fn, d = HET_FN[f]
+        return HDual(fn(a.v), d(a.v) * a.g)
+
+
+class HetOptyx:
+    """the recipe over optyx objects (public operators; unary nodes as gen.unary builds them)"""
+
+    def __init__(self, xs, params):
+        self.xs, self.params = xs, params
+
+    def var(self, i):
+        return self.xs[i]
+
+    def const(self, c):
+        from optyx.core.expressions import Constant
+
+        return Constant(c)
+
+    def par(self, j):
+        return self.params[j]
+
+    def un(self, f, a):
+        return -a if f == "neg" else gen.unary(f, a)
+
+
+def het_term(rec, A):
+    """one element of the list, written with the operators a user writes"""
+    k = rec[0]
+    if k == "var": return A.var(rec[1])
+    if k == "const": return A.const(rec[1])
+    if k == "vc": return apply(rec[1], A.var(rec[2]), rec[3])                                  # x op c
+    if k == "cv": return apply(rec[1], rec[3], A.var(rec[2]))                                  # c op x
+    if k == "vv": return apply(rec[1], A.var(rec[2]), A.var(rec[3]))                           # x op y
+    if k == "vp": return apply(rec[1], A.var(rec[2]), A.par(rec[3]))                           # x op parameter
+    if k == "un": return A.un(rec[1], A.var(rec[2]))                                           # f(x)
+    if k == "pow": return A.var(rec[1]) ** rec[2]                                              # x ** k
+    if k == "nest": return apply(rec[2], apply(rec[1], A.var(rec[3]), rec[4]), rec[5])         # (x op1 c1) op2 c2
+    if k == "nestr": return apply(rec[2], rec[5], apply(rec[1], A.var(rec[3]), rec[4]))        # c2 op2 (x op1 c1)
+    if k == "unlin": return A.un(rec[1], A.var(rec[2]) * rec[3] + rec[4])                      # f(x * c + d)
+    raise KeyError(k)
+
+
+def het_term_vars(rec):
+    k = rec[0]
+    return {"var": (1,), "const": (), "vc": (2,), "cv": (2,), "vv": (2, 3), "vp": (2,), "un": (2,), "pow": (1,),
+            "nest": (3,), "nestr": (3,), "unlin": (2,)}[k]
+
+
+def het_records(profile, n, idx, rng, mono=False, typed=False):
+    """the n records of one element list along `profile`; idx(i) = variable index of element i.  mono: only shapes that are
+    monotone in their single variable on the box (solve cases)"""
+    consts = [0.25, 0.5, 0.75, 1.25, 1.75, 2.0, 2.5, 3.0, 4.0, -0.5, -1.25, -2.0, -3.0]
+    far = [2.0, 2.5, 3.0, -2.0, -3.0]        # x ∘ c stays ≥ 1/6 away from 0 for every ∘ and x in the box
+
+    def C():
+        c = rng.choice(consts)
+        if typed and rng.random() < 0.4:
+            c = rng.choice([lambda t: np.float64(t), lambda t: np.float32(t), lambda t: int(t) if float(t).is_integer() else t,
+                            lambda t: np.array(t)])(c)
+        return c
+
+    # the operator-pattern profiles run over one base shape: x ∘ c (mostly), c ∘ x, x ∘ y, x ∘ parameter
+    base = rng.choice(["vc", "vc", "vc", "cv", "vp"] + ([] if mono else ["vv"]))
+
+    def vc(i, op, c=None):
+        if base == "cv":
+            return ("cv", op, idx(i), rng.choice(consts) if c is None else c)
+        if base == "vv":
+            return ("vv", op, idx(i), idx(i + 1 + rng.randint(0, 2)))
+        if base == "vp":
+            return ("vp", op, idx(i), rng.randint(0, 1))
+        return ("vc", op, idx(i), C() if c is None else c)
+
+    def shape(i, kinds):
+        k = rng.choice(kinds)
+        op, op2 = rng.choice(HET_OPS), rng.choice(HET_OPS)
+        if k == "vc": return ("vc", op, idx(i), C())
+        if k == "cv": return ("cv", op, idx(i), rng.choice(consts))
+        if k == "vv": return ("vv", op, idx(i), idx(i + 1 + rng.randint(0, 2)))
+        if k == "vp": return ("vp", op, idx(i), rng.randint(0, 1))
+        if k == "un": return ("un", rng.choice(HET_MONO_UNARY if mono else HET_UNARY), idx(i))
+        if k == "pow": return ("pow", idx(i), rng.choice([2, 3, 0.5, -1, 2.0, -0.5]))
+        if k == "nest": return ("nest", op, op2, idx(i), rng.choice(far), rng.choice(consts))
+        if k == "nestr": return ("nestr", op, op2, idx(i), rng.choice(far), rng.choice(consts))
+        if k == "unlin": return ("unlin", rng.choice(HET_BOUNDED_UNARY), idx(i), rng.choice([0.5, -0.75, 1.25]), rng.choice([0.25, -0.5]))
+        if k == "var": return ("var", idx(i))
+        return ("const", rng.choice(consts))
+
+    every = ["vc", "cv", "un", "nest", "nestr", "pow", "vp", "var"] + ([] if mono else ["vv", "unlin", "const", "vc", "cv"])
+    not_vc = [k for k in every if k != "vc"]
+    a, b = rng.sample(HET_OPS, 2)
+    j = rng.randint(0, n - 1)
+    cut = rng.randint(1, n - 1) if n > 1 else 1
+    off = rng.randint(0, 3)
+    c0 = rng.choice(consts)
+    if profile == "one-op": return [vc(i, a) for i in range(n)]
+    if profile == "cycle-ops": return [vc(i, HET_OPS[(i + off) % 4]) for i in range(n)]
+    if profile == "first-odd": return [vc(i, a if i == 0 else b) for i in range(n)]
+    if profile == "last-odd": return [vc(i, b if i == n - 1 else a) for i in range(n)]
+    if profile == "one-odd": return [vc(i, b if i == j else a) for i in range(n)]
+    if profile == "two-runs": return [vc(i, a if i < cut else b) for i in range(n)]
+    if profile == "ends-same": return [vc(i, a if i in (0, n - 1) else b) for i in range(n)]
+    if profile == "random-ops": return [vc(i, rng.choice(HET_OPS)) for i in range(n)]
+    if profile == "same-const": return [vc(i, rng.choice(HET_OPS), c0) for i in range(n)]
+    if profile == "reflected": return [shape(i, ["vc", "cv"]) for i in range(n)]
+    if profile == "first-vc-then-shapes": return [vc(0, a)] + [shape(i, every) for i in range(1, n)]
+    if profile == "first-shape-odd": return [shape(0, not_vc)] + [vc(i, a) for i in range(1, n)]
+    if profile == "shapes": return [shape(i, every) for i in range(n)]
+    fs = HET_MONO_UNARY if mono else HET_UNARY
+    f, g = rng.sample(fs, 2)
+    ks = [2, 3, 0.5, -1, 2.0, -0.5, 4, 1.5]
+    k1, k2 = rng.sample(ks, 2)
+    if profile == "unary-odd": return [("un", g if i == j else f, idx(i)) for i in range(n)]
+    if profile == "unary-random": return [("un", rng.choice(fs), idx(i)) for i in range(n)]
+    if profile == "pow-odd": return [("pow", idx(i), k2 if i == j else k1) for i in range(n)]
+    if profile == "pow-random": return [("pow", idx(i), rng.choice(ks)) for i in range(n)]
+    raise KeyError(profile)
+
+
+def het_chain_records(m, z0, nz, rng, positive):
+    """m scalar terms of a term-by-term chain over the variables z0 .. z0+nz-1 (all linear; positive: increasing in every z)"""
+    cs = [0.25, 0.5, 0.75, 1.25, 1.5, 2.0] + ([] if positive else [-0.5, -1.25])
+    out = []
+    for i in range(m):
+        zi = z0 + i % nz
+        f = (i + i // nz) % 6
+        c = cs[(i * 5 + i // 7) % len(cs)]
+        out.append([("var", zi), ("vc", "*", zi, c), ("cv", "*", zi, c), ("vc", "/", zi, abs(c) if positive else c),
+                    ("vc", "+", zi, c), ("vc", "-", zi, c)][f])
+    return out
+
+
+def het_spec(profile, red, where, n, m, fseed, solve):
+    """the recipe of one formula, deterministic in its arguments: items = [(sign, ("t", record) | ("b", block))], wrapper,
+    number of variables, parameter values, constants"""
+    rng = core.Rng(fseed)
+    mono = bool(solve)
+    nv = n if (mono or n <= 2 or rng.random() < 0.6) else rng.choice([1, 2, 3])     # distinct variables / few shared ones
+    perm = list(range(nv))
+    rng.shuffle(perm)
+
+    def idx(i):
+        return perm[i % nv] if nv == n else perm[(i * 7 + i // nv) % nv]
+
+    def block(prof, size, r):
+        b = {"red": r, "t": het_records(prof, size, idx, rng, mono=mono, typed=not mono and rng.random() < 0.3)}
+        if r == "dot":
+            b["u"] = het_records(rng.choice(HET_PROFILES), size, idx, rng)
+        if r == "lc":
+            ws = [0.5, -1.5, 2.0, 0.25, -0.75, 1.25, 3.0]
+            b["w"] = [ws[(i + fseed) % len(ws)] for i in range(size)]
+            b["ctor"] = rng.random() < 0.5
+        return b
+
+    items = [("+", ("b", block(profile, n, red)))]
+    wrapper = None
+    nz = 0
+    if where == "wrapped":
+        wrapper = rng.choice(HET_WRAPS)
+    elif where.startswith("deep"):
+        nz = rng.choice([1, 3, 5])
+        chain = [("+", ("t", r)) for r in het_chain_records(m, nv, nz, rng, positive=mono)]
+        if not mono:
+            chain = [((s if i == 0 or rng.random() < 0.75 else "-"), t) for i, (s, t) in enumerate(chain)]
+        blk = items[0][1]
+        if where == "deep-top":
+            items = chain + [("+", blk)]
+        elif where == "deep-bottom":
+            items = [("+", blk)] + chain
+        elif where == "deep-mid":
+            k = rng.randint(1, m - 1)
+            items = chain[:k] + [(rng.choice("+-"), blk)] + chain[k:]
+        elif where == "deep-sub":
+            items = chain + [("-", blk)]
+        elif where == "deep-many":
+            items = list(chain)
+            others = [blk[1]] + [block(rng.choice(HET_PROFILES), rng.choice([2, 3, 4, n]), rng.choice(["sum", "sum", red]))
+                              for _ in range(4)]
+            for q, bk in enumerate(others):
+                items.insert(rng.randint(0 if q else 1, len(items)), (rng.choice("+-") if q else "+", ("b", bk)))
+            if items[0][0] == "-":
+                items[0] = ("+", items[0][1])
+        else:
+            raise KeyError(where)
+    return {"items": items, "wrapper": wrapper, "nvars": nv + nz, "nblock": nv, "params": [1.75, -0.625],
+            "K": rng.choice([7.5, -2.25, 12.0]), "K2": rng.choice([1.5, -0.75]), "k": rng.choice([2.0, 0.5, -1.5, 3.0, -0.25]),
+            "share": rng.random() < 0.5, "vector_vars": rng.random() < 0.5, "rng": rng}
+
+
+def het_summands(b, A, memo=None):
+    """the scalar summands sᵢ of a block with Σ sᵢ (√Σ sᵢ for ‖·‖₂) = the vector node; (elements t, elements u)"""
+    if memo is not None and id(b) in memo:
+        ts, us = memo[id(b)]
+    else:
+        ts = [het_term(r, A) for r in b["t"]]
+        us = [het_term(r, A) for r in b["u"]] if b["red"] == "dot" else None
+        if memo is not None:
+            memo[id(b)] = (ts, us)
+    red = b["red"]
+    if red == "sum": ss = list(ts)
+    elif red == "lc": ss = [w * t for w, t in zip(b["w"], ts)]
+    elif red == "dot": ss = [t * u for t, u in zip(ts, us)]
+    elif red == "l2": ss = [t * t for t in ts]
+    elif red == "l1": ss = [A.un("abs", t) for t in ts]
+    else: raise KeyError(red)
+    return ts, us, ss
+
+
+def het_block(b, A, how, memo=None):
+    from optyx.core import vectors as V
+
+    ts, us, ss = het_summands(b, A, memo)
+    red = b["red"]
+    if how == "vector":
+        ve = V.VectorExpression(ts)
+        if red == "sum": return ve.sum()
+        if red == "lc": return V.LinearCombination(np.array(b["w"]), ve) if b["ctor"] else ve @ np.array(b["w"])
+        if red == "dot": return ve.dot(V.VectorExpression(us))
+        if red == "l2": return V.L2Norm(ve)
+        if red == "l1": return V.L1Norm(ve)
+    acc = build_left("+", ss) if how == "left" else balanced("+", ss)
+    return A.un("sqrt", acc) if red == "l2" else acc
+
+
+def het_formula(spec, A, how, memo=None):
+    """the formula over the algebra A; how ∈ vector / left / balanced (the blocks), flat-left / flat-balanced / flat-vector
+    (pure sums only: ONE accumulation / ONE VectorExpression over all elementary terms, each with its sign folded in)"""
+    items = spec["items"]
+    if how.startswith("flat"):
+        from optyx.core.vectors import VectorExpression
+
+        flat = []
+        for s, (kind, it) in items:
+            els = [het_term(it, A)] if kind == "t" else het_summands(it, A, memo)[2]
+            flat += [(-t if s == "-" else t) for t in els]
+        acc = {"flat-left": lambda: build_left("+", flat), "flat-balanced": lambda: balanced("+", flat),
+               "flat-vector": lambda: VectorExpression(flat).sum()}[how]()
+    else:
+        acc = None
+        for s, (kind, it) in items:
+            t = het_term(it, A) if kind == "t" else het_block(it, A, how, memo)
+            acc = t if acc is None else ((acc - t) if s == "-" else (acc + t))
+    if spec["wrapper"]:
+        acc = wrap(spec["wrapper"], acc, None, spec["K"], spec["K2"], spec["k"])[0]
+    return acc
+
+
+def het_reference(spec, point):
+    """HDual of the formula at the point (harness arithmetic only) and the Σ|summand| scale; None if ill-conditioned"""
+    A = HetRef(point, spec["params"])
+    try:
+        ref = het_formula(spec, A, "left")
+        scale = 0.0
+        for s, (kind, it) in spec["items"]:
+            if kind == "t":
+                scale += abs(het_term(it, A).v)
+            else:
+                ts, us, ss = het_summands(it, A)
+                if it["red"] == "l1" and min(abs(t.v) for t in ts) < 1.0 / 64:
+                    return None, None        # a kink of |·| too close
+                tot = sum(abs(t.v) for t in ss)
+                if it["red"] == "l2" and tot < 1.0 / 16:
+                    return None, None
+                scale += tot + 1.0
+    except (ZeroDivisionError, OverflowError, ValueError):
+        return None, None
+    if not (math.isfinite(ref.v) and np.all(np.isfinite(ref.g)) and abs(ref.v) < 1e6 and float(np.max(np.abs(ref.g))) < 1e6):
+        return None, None
+    if spec["wrapper"]:
+        scale = scale * (abs(spec["k"]) + 1.0) + abs(spec["K"]) + abs(spec["K2"])
+    return ref, scale
+
+
+def _hstat(key, k=1):
+    HET_STATS[key] = HET_STATS.get(key, 0) + k
+
+
+def hetero_case(profile, red, where, n, m, thr, fseed, solve):
+    """None = every channel of every build agrees with the harness's own arithmetic on the recipe; else a failure dict"""
+    with Thresholds(thr):
+        return _hetero_case(profile, red, where, n, m, thr, fseed, solve)
+
+
+def _hetero_case(profile, red, where, n, m, thr, fseed, solve):
+    import optyx.core.autodiff as AD
+    import optyx.core.compiler as C
+    from optyx import Parameter, Problem, Variable, VectorVariable
+    from optyx.core.expressions import get_all_variables
+
+    base = {"family": "hetero", "profile": profile, "reduction": red, "where": where, "n": n, "m": m, "thr": thr,
+            "seed": fseed, "solve": bool(solve)}
+    spec = het_spec(profile, red, where, n, m, fseed, solve)
+    rng = spec["rng"]
+    nvars, nb = spec["nvars"], spec["nblock"]
+
+    def fresh_vars():
+        if spec["vector_vars"]:
+            xs = list(VectorVariable("h", nb, lb=HET_LO, ub=HET_HI))
+        else:
+            xs = [Variable(f"h{i}", lb=HET_LO, ub=HET_HI) for i in range(nb)]
+        xs += [Variable(f"z{i}", lb=HET_LO, ub=HET_HI) for i in range(nvars - nb)]
+        return xs, [Parameter(f"hp{i}", v) for i, v in enumerate(spec["params"])]
+
+    xs, params = fresh_vars()
+    A = HetOptyx(xs, params)
+    used = set()
+    for s, (kind, it) in spec["items"]:
+        for r in ([it] if kind == "t" else it["t"] + it.get("u", [])):
+            used |= {r[p] for p in het_term_vars(r)}
+    used = sorted(used)
+    foreign = Variable("foreign", lb=HET_LO, ub=HET_HI)
+    V = [xs[i] for i in used] + [foreign]
+    rng.shuffle(V)
+    col = {v.name: j for j, v in enumerate(V)}
+    want_vars = tuple(sorted(xs[i].name for i in used))
+
+    pure_sum = all(kind == "t" or it["red"] == "sum" for s, (kind, it) in spec["items"]) and len(spec["items"]) > 1
+    hows = ["vector", "left", "balanced"] + (["flat-vector", "flat-left", "flat-balanced"] if pure_sum else [])
+    memo = {} if spec["share"] else None       # the same element objects in every build (a DAG across builds) or fresh ones
+    builds = {}
+    for how in hows:
+        builds[how], err = guarded(lambda: het_formula(spec, A, how, memo))
+        if err:
+            return dict(base, build=how, what=f"building the {how} form raised {err}")
+    total = sum(1 if kind == "t" else len(it["t"]) for s, (kind, it) in spec["items"])
+    small = total <= 60
+    cheap_grad = len(V) * total <= 9000       # derivative compilation costs (variables × terms)
+
+    # ---- points (dyadic, inside the box) and the harness's own values / partials
+    pts = []
+    for _ in range(6):
+        p = [rng.randint(8, 24) / 16 for _ in range(nvars)]
+        ref, scale = het_reference(spec, p)
+        if ref is not None:
+            pts.append((p, ref, scale))
+        if len(pts) == 2:
+            break
+    if not pts:
+        _hstat("skipped:ill-conditioned")
+        return None
+
+    first_block = next(it for s, (kind, it) in spec["items"] if kind == "b")
+
+    def bad(how, what, **kw):
+        return dict(base, build=how, what=f"{what} ({how} build; {red} over a '{profile}' element list, {where})",
+                    elements=[repr(r) for r in first_block["t"][:6]], **kw)
+
+    clear_caches()
+    for how, e in builds.items():
+        got, err = guarded(lambda: tuple(sorted(v.name for v in get_all_variables(e))))
+        if err or got != want_vars:
+            return bad(how, "get_all_variables is not the set of the variables of the terms", got=err or got[:8], want=want_vars[:8])
+        fn, err = guarded(lambda: C.compile_expression(e, V))
+        if err:
+            return bad(how, f"compile_expression raised {err}")
+        dfn, err = guarded(lambda: C.compile_to_dict_function(e, V))
+        if err:
+            return bad(how, f"compile_to_dict_function raised {err}")
+        for pi, (p, ref, scale) in enumerate(pts):
+            pt = {xs[i].name: p[i] for i in range(nvars)}
+            pt["foreign"] = 0.8125
+            x = np.array([pt[v.name] for v in V])
+            chans = [("evaluate", lambda: K_fl(e.evaluate(dict(pt)))), ("compiled value", lambda: K_fl(fn(x))),
+                     ("compile_to_dict_function value", lambda: K_fl(dfn(dict(pt))))]
+            if pi == 0 and cheap_grad:
+                chans.append(("CompiledExpression.value", lambda: K_fl(C.CompiledExpression(e, V).value(x))))
+            for nm, f in chans:
+                got, err = guarded(f)
+                if err or not close(got, ref.v, scale):
+                    return bad(how, f"{nm} differs from the value NumPy / plain float arithmetic gives for the recipe",
+                               got=err or got, want=ref.v, point=pt)
+            if pi > 0:
+                continue
+            want_g = np.zeros(len(V))
+            for i in used:
+                want_g[col[xs[i].name]] = ref.g[i]
+            gch = {}
+            if cheap_grad:
+                gch["compile_jacobian"] = lambda: arr(AD.compile_jacobian([e], V)(x))
+            if cheap_grad and (small or how in ("vector", "flat-vector")):
+                gch["compile_gradient"] = lambda: arr(C.compile_gradient(e, V)(x))
+                gch["CompiledExpression.gradient"] = lambda: arr(C.CompiledExpression(e, V).gradient(x))
+            for nm, f in gch.items():
+                got, err = guarded(f)
+                if err or len(got) != len(V):
+                    return bad(how, f"{nm} raised / has the wrong shape", got=err or len(got))
+                for j2 in range(len(V)):
+                    if not close(float(got[j2]), float(want_g[j2]), scale, rtol=1e-7):
+                        return bad(how, f"{nm} differs from the hand-propagated derivative", wrt=V[j2].name, got=float(got[j2]),
+                                   want=float(want_g[j2]), point=pt)
+            probe = [xs[used[0]], xs[used[-1]], foreign] + ([xs[rng.choice(used)]] if len(used) > 2 else [])
+            for u in probe:
+                g, err = guarded(lambda: AD.gradient(e, u))
+                if err:
+                    return bad(how, f"gradient() raised {err}", wrt=u.name)
+                if u is foreign:
+                    if not is_literal_zero(g):
+                        return bad(how, "gradient w.r.t. an absent variable is not the literal 0", wrt=u.name)
+                    continue
+                gv = grad_value(g, pt)
+                if gv is None:
+                    gv, err = guarded(lambda: K_fl(g.evaluate(dict(pt))))
+                if gv is None or not close(gv, float(want_g[col[u.name]]), scale, rtol=1e-7):
+                    return bad(how, "gradient() differs from the hand-propagated derivative", wrt=u.name, got=err or gv,
+                               want=float(want_g[col[u.name]]), point=pt)
+    _hstat("compared")
+    _hstat("builds", len(builds))
+    if not solve:
+        return None
+    # ---- solve: every variable's contribution is monotone on the box, so the optimum is a corner computed by hand
+    lo = [HET_LO] * nvars
+    f_lo = het_reference(spec, lo)[0]
+    if f_lo is None:
+        return None
+    opt = f_lo.v
+    corner = list(lo)
+    for i in used:
+        p = list(lo)
+        p[i] = HET_HI
+        f_hi = het_reference(spec, p)[0]
+        if f_hi is None or abs(f_hi.v - f_lo.v) < 0.05:
+            _hstat("solve-skipped:flat-direction")
+            return None                      # a nearly flat direction: the solver's stopping rule would decide
+        if f_hi.v < f_lo.v:
+            opt += f_hi.v - f_lo.v
+            corner[i] = HET_HI
+    chk = het_reference(spec, corner)[0]
+    if chk is None or abs(chk.v - opt) > 1e-9 * (1 + abs(opt)):
+        return None                          # not separable after all
+    sols = {}
+    for how, e in builds.items():
+        clear_caches()
+        sol, err = guarded(lambda: Problem().minimize(e).solve())
+        if err:
+            return bad(how, f"solve with the formula as objective raised {err}")
+        vals = dict(sol.values or {})
+        at = None
+        if all(xs[i].name in vals for i in used):
+            at = het_reference(spec, [float(vals.get(xs[i].name, HET_LO)) for i in range(nvars)])[0]
+        sols[how] = (str(sol.status), sol.objective_value, at.v if at is not None else None)
+    optimal = {how: s for how, s in sols.items() if "optimal" in s[0].lower()}
+    if not optimal:
+        _hstat("solve-skipped:no-optimal-status")
+        return None
+    _hstat("solved")
+    for how, (st, ov, at) in sols.items():
+        if how not in optimal:
+            return bad(how, "solve status differs between builds of one formula", got=st, want=next(iter(optimal.values()))[0])
+        if ov is None or abs(ov - opt) > 1e-5 * (1 + abs(opt)):
+            return bad(how, "reported optimal objective differs from the hand-computed optimum over the box", got=ov, want=opt,
+                       corner={xs[i].name: corner[i] for i in used[:8]})
+        if at is not None and abs(ov - at) > 1e-6 * (1 + abs(at)):
+            return bad(how, "reported objective value is not the value of the recipe at the reported solution", got=ov, want=at)
+    return None
+
+
+def hetero_plan(rng, thorough):
+    """(profile, reduction, where, n, m, thr, seed, solve)"""
+    out = []
+    S = lambda: rng.randint(0, 2 ** 31 - 1)
+    small_n = [1, 2, 3, 4, 5, 8, 12, 31, 33]
+    reps = 4 if thorough else 1
+    r0 = rng.randint(0, 99)
+    # every profile standalone under .sum() and under one other reduction; wrapped; thresholds default / 0 / 3
+    for rep_ in range(reps):
+        for i, prof in enumerate(HET_PROFILES):
+            out.append((prof, "sum", "alone", rng.choice(small_n[1:]), 0, rng.choice([None, None, 0, 3]), S(), False))
+            out.append((prof, HET_REDUCTIONS[1 + (i + r0 + rep_) % 4], rng.choice(["alone", "wrapped"]), rng.choice(small_n), 0,
+                        rng.choice([None, 0, 3]), S(), False))
+            if thorough or (i + r0) % 2 == 0:
+                out.append((prof, "sum", "wrapped", rng.choice(small_n[1:]), 0, rng.choice([None, 0]), S(), False))
+    # sizes across thresholds, standalone
+    for n in ([64, 100, 399, 400, 401, 450, 900] if thorough else [rng.choice([64, 100]), rng.choice([400, 401, 450]), 900]):
+        out.append((rng.choice(HET_PROFILES), "sum" if n > 100 or rng.random() < 0.5 else rng.choice(HET_REDUCTIONS), "alone", n, 0,
+                    None, S(), False))
+    # the vector node(s) inside a deep term-by-term chain
+    deep = [w for w in HET_WHERE if w.startswith("deep")]
+    for i, w in enumerate(deep * (3 if thorough else 1)):
+        out.append((HET_PROFILES[(i * 3 + r0) % len(HET_PROFILES)], "sum" if (i + r0) % 3 else rng.choice(HET_REDUCTIONS[1:]), w,
+                    rng.choice([2, 4, 6, 12]), rng.choice([399, 400, 401, 450, 900] if thorough else [400, 401, 450]), None, S(), False))
+    # solve objectives: standalone, wrapped (a positive scaling keeps the corner), inside a deep chain
+    for i in range(12 if thorough else 4):
+        out.append((HET_PROFILES[(i * 5 + r0) % len(HET_PROFILES)], ["sum", "lc"][i % 2], "alone", rng.choice([2, 3, 4, 6, 8]), 0, None,
+                    S(), True))
+    for i in range(4 if thorough else 1):
+        out.append((HET_PROFILES[(i * 4 + r0 + 1) % len(HET_PROFILES)], "sum", rng.choice(["deep-top", "deep-bottom", "deep-mid"]),
+                    rng.choice([3, 4, 6]), rng.choice([400, 401, 450]), None, S(), True))
+    return out
+
+
+def hetero_sweep(seed, rng):
+    """the widened search of the family: every profile × reduction × position, thresholds default / 0 / 3, solves; then the
+    deep positions and the sizes; first failure or None"""
+    sd = seed * 5000 + 17
+    one = len(HET_PROFILES) * len(HET_REDUCTIONS)
+    for i in range(one * 2):
+        prof = HET_PROFILES[i % len(HET_PROFILES)]
+        red = HET_REDUCTIONS[(i // len(HET_PROFILES)) % len(HET_REDUCTIONS)]
+        solve = i % 3 == 0 and red in ("sum", "lc")
+        # first pass: the recursive algorithms (default thresholds; 3 under a wrapper), second pass: the explicit-stack ones
+        thr = 0 if i >= one else (None if (solve or i % 2) else rng.choice([None, 3]))
+        r = hetero_case(prof, red, "alone" if (solve or (i + i // one) % 2) else "wrapped", rng.choice([2, 3, 4, 5, 8, 12, 33]), 0,
+                        thr, sd + i, solve)
+        if r is not None:
+            return r
+    deep_where = [w for w in HET_WHERE if w.startswith("deep")]
+    for i in range(30):
+        r = hetero_case(HET_PROFILES[(i * 3) % len(HET_PROFILES)], "sum" if i % 3 else HET_REDUCTIONS[1 + i % 4],
+                        deep_where[i % len(deep_where)], rng.choice([2, 4, 6, 12]), rng.choice([399, 400, 401, 450, 900]), None,
+                        sd + 1000 + i, i % 10 == 9 and deep_where[i % len(deep_where)] != "deep-many")
+        if r is not None:
+            return r
+    for i, n in enumerate([64, 100, 399, 400, 401, 450, 900]):
+        r = hetero_case(HET_PROFILES[(i * 2 + 1) % len(HET_PROFILES)], "sum", "alone", n, 0, None, sd + 2000 + i, False)
+        if r is not None:
+            return r
+    return None
+
+
 # ----------------------------------------------------------------------------- search / replay
 
 
@@ -2236,6 +2891,10 @@ def search(ctx, rep):
             r = check_formula(key[0], key[1], int(key[2]), int(key[3]), pt_seed=pseed)
             if r is not None:
                 return r
+    # (1a) heterogeneous element lists under every vectorised reduction
+    r = hetero_sweep(ctx["seed"], rng)
+    if r is not None:
+        return r
     # (1b) same-named views: every model × profile, thresholds lowered, and above the default switch depth
     for i in range(42):
         model = LABEL_MODELS[i % len(LABEL_MODELS)]
@@ -2275,6 +2934,11 @@ def replay(payload) -> bool:
         r = labels_case(f["model"], f["profile"], f["op"], f["wrapper"], int(f["n"]),
                         None if f.get("thr") in (None, "None") else int(f["thr"]), int(f["seed"]), bool(f["solve"]))
         print("labels_case:", r)
+        return r is None
+    if f.get("family") == "hetero":
+        r = hetero_case(f["profile"], f["reduction"], f["where"], int(f["n"]), int(f["m"]),
+                        None if f.get("thr") in (None, "None") else int(f["thr"]), int(f["seed"]), bool(f["solve"]))
+        print("hetero_case:", r)
         return r is None
     if f.get("family") == "deep-wrapped":
         r = deep_wrapped_case(f["wrapper"], f["op"], int(f["n"]), int(f["seed"]), list(f["consumers"]))
